@@ -1,8 +1,11 @@
 import Lean.Data.Json
 import CbiVerif.Model.FindFold
 import CbiVerif.Model.FindInst
+import CbiVerif.Model.FindCache
 /-! driver op for C08: `c08find` — `FindInst.findI` (model), `FindInst.specI` (stateless union),
-optionally the state-threading port `PP.find` for a three-way comparison. -/
+optionally the state-threading port `PP.find` for a three-way comparison, and `FindCache.findC`
+(`cached`: the total model with the explicit shared parse cache, the subject of Part 3 of
+`Props/C08.lean`) with its mixing log and the evaluated conclusion of `find_cached_eq_findG_partial`. -/
 open Lean CbiVerif.PP CbiVerif.FindFold CbiVerif.FindInst
 namespace CbiVerif.Drv.C08
 
@@ -38,6 +41,43 @@ def ppJson (fs : FSMap) (st : PState) : Json :=
     Json.mkObj [("ok", filesJson fs fun f i => canon (((st.assoc.find? (·.1 == (f, i))).map (·.2)).getD [])),
                 ("warns", Json.arr (st.warns.map warnJson).toArray)]
 
+def clsName : CbiVerif.Exclude.LClass → String
+  | .c => "c" | .fortran => "fortran" | .asm => "asm"
+
+/-- per cached file, per node: kind, physical lines, platforms (sorted) -/
+def cacheJson (c : CbiVerif.Exclude.Cache) (plats : String → Nat → List String) : Json :=
+  Json.mkObj <| c.map fun (f, _, (nodes, _)) =>
+    (f, Json.arr (nodes.toList.zipIdx.map fun (n, i) =>
+      Json.arr #[Json.str (kindStr n.kind), Json.arr (n.lines.map fun (x : Nat) => (x : Json)).toArray,
+                 Json.arr ((plats f i).map Json.str).toArray]).toArray)
+
+def accEq (a b : Except Err (Acc NodeKey Warn)) : Bool :=
+  match a, b with
+  | .ok x, .ok y => x.pairs == y.pairs && x.warns == y.warns
+  | .error e, .error f => e == f
+  | _, _ => false
+
+/-- `FindCache.findC` with the semantics `FindCache.semC files` -/
+def cachedJson (files : FSMap) (fuel : Nat) (codebase : List String) (cfg : Config Entry) : List (String × Json) :=
+  let S := CbiVerif.FindCache.semC files
+  let r := CbiVerif.FindCache.findC S fuel codebase cfg
+  let mixed := CbiVerif.FindCache.mixLog S fuel codebase cfg
+  let ref := CbiVerif.FindCache.findRefG S fuel codebase cfg
+  let cache := CbiVerif.FindCache.finalCache S fuel codebase cfg
+  let res : Json := match r with
+    | .error e => Json.mkObj [("exc", toString (repr e))]
+    | .ok a =>
+      Json.mkObj [("ok", cacheJson cache fun f i => platformsOfKey a.pairs (f, i)),
+                  ("warns", Json.arr (a.warns.map warnJson).toArray),
+                  ("npairs", (a.pairs.length : Nat)),
+                  ("classes", Json.mkObj (cache.map fun (f, cl, _) => (f, Json.str (clsName cl))))]
+  [("cached", res),
+   ("mixed", Json.arr (mixed.map fun m =>
+      Json.arr #[Json.str m.file, Json.str (clsName m.used),
+                 match m.ref with | some rc => Json.str (clsName rc) | none => Json.null]).toArray),
+   ("cached_eq_ref", accEq r ref),
+   ("ref_exc", match ref with | .error e => Json.str (toString (repr e)) | .ok _ => Json.null)]
+
 def handle (j : Json) : Json :=
   let files : FSMap := match j.getObjVal? "files" with
     | .ok (Json.obj kvs) => kvs.toList.map fun (k, v) => (k, v.getStr?.toOption.getD "")
@@ -53,10 +93,15 @@ def handle (j : Json) : Json :=
   let X := strs j "select"
   let cfg := select X config
   let withPP := (j.getObjValAs? Bool "pp").toOption.getD false
+  let withCached := (j.getObjValAs? Bool "cached").toOption.getD true
+  let fuel := (j.getObjValAs? Nat "fuel").toOption.getD CbiVerif.Exclude.defaultFuel
+  -- `lite`: only the cached total model (used for the single-command mixing logs)
+  if (j.getObjValAs? Bool "lite").toOption.getD false then Json.mkObj (cachedJson files fuel codebase cfg) else
   Json.mkObj ([("model", resultJson files (findI files codebase cfg)),
                ("spec", resultJson files (specI files codebase cfg)),
                ("platforms", Json.arr (cfg.map fun pe => Json.str pe.1).toArray)] ++
-              (if withPP then [("pp", ppJson files (find files codebase cfg))] else []))
+              (if withPP then [("pp", ppJson files (find files codebase cfg))] else []) ++
+              (if withCached then cachedJson files fuel codebase cfg else []))
 
 def handlers : List (String × (Json → Json)) := [("c08find", handle)]
 
